@@ -89,7 +89,8 @@ def run(ctx):
     samples = []
     # ---------------------------------------------------------------- M intended
     for inst in m_instances(ctx):
-        r = tlc.run("Spot", cfg_text=acct.model_cfg(KIND, inst), workers=ctx.pick(4, 16), coverage=True, timeout=ctx.pick(600, 1500))
+        r = tlc.run("Spot", cfg_text=acct.model_cfg(KIND, inst), workers=ctx.pick(4, 16), coverage=ctx.quick or inst["depth"] <= 5,
+                    timeout=ctx.pick(600, 1500))
         label = "Spot intended syms=%d qtys=%s prices=%s fee=%d/%d coc=%s depth=%d" % (
             len(inst["syms"]), inst["qtys"], inst["prices"], inst["fee"][0], inst["fee"][1], inst["coc"], inst["depth"])
         ctx.add_tlc(r, label)
@@ -98,7 +99,7 @@ def run(ctx):
             raise Machinery("the intended cash account of Spot.tla violates %s on %s\n%s" % (
                 r.violation["name"], label, r.violation["trace"][:3000]))
         for a in ("Submit", "Cancel", "Execute", "Flush", "SetPrice"):
-            if r.coverage.get(a, (0, 0))[1] == 0:
+            if r.coverage and r.coverage.get(a, (0, 0))[1] == 0:
                 raise Machinery("vacuity: action %s never taken in %s" % (a, label))
     # ---------------------------------------------------------------- M as the code is -> counter-examples -> real code
     traces, hists = [], {}
